@@ -467,6 +467,11 @@ func runC19(c *Ctx) {
 					}
 				}
 				cmd := exec.Command(fitgen, append(append([]string{}, args...), inPath, o)...)
+				if j.k%3 == 2 {
+					// the command as typed in a shell: input and output given relative to the working directory
+					cmd = exec.Command(fitgen, append(append([]string{}, args...), filepath.Base(inPath), filepath.Base(o))...)
+					cmd.Dir = j.dir
+				}
 				out, err := cmd.CombinedOutput()
 				code := 0
 				if err != nil {
